@@ -260,10 +260,11 @@ fn cmd_check(args: &Args) -> i32 {
             engine::shrink(prop, base, viol.oracle)
         };
         // re-evaluate the minimised case for the final detail text
-        let ev_min = family::evaluate(prop, &min);
+        let limit = Duration::from_secs(if viol.oracle == "hang" { 5 } else { 60 });
+        let ev_min = engine::evaluate_guarded(prop, &min, limit);
         let (min, ev_final) = match &ev_min.violation {
             Some(v2) if v2.oracle == viol.oracle => (min, ev_min),
-            _ => (base.clone(), family::evaluate(prop, base)),
+            _ => (base.clone(), engine::evaluate_guarded(prop, base, limit)),
         };
         let ev_final = if ev_final.violation.is_some() {
             ev_final
